@@ -305,7 +305,7 @@ def main_guard(fn):
 
 # ----------------------------------------------------------------------------- parallel case running
 
-def run_cases(harness, cases, asan=False, per_case_timeout=60, jobs=16, env=None):
+def run_cases(harness, cases, asan=False, per_case_timeout=60, jobs=16, env=None, max_timeouts=6):
     """cases: list of (cid, script_text).  Runs them in chunks on `jobs` processes.
     Returns (M, {cid: token lines}, crashes=[(cid, rc, stderr_tail)])."""
     from concurrent.futures import ThreadPoolExecutor
@@ -314,7 +314,11 @@ def run_cases(harness, cases, asan=False, per_case_timeout=60, jobs=16, env=None
     nchunks = max(1, min(len(cases), jobs * 2))
     chunks = [cases[i::nchunks] for i in range(nchunks)]
 
+    timeouts = []        # once a few cases have hung the point is made: do not sit out hundreds of time limits
+
     def run_chunk(ch):
+        if len(timeouts) >= max_timeouts:
+            return []
         # a chunk normally needs well under a second per case; a generous but finite budget, then one by one
         budget = min(per_case_timeout * len(ch) + 30, 60 + 3 * len(ch) * (4 if asan else 1))
         rc, out, err = run_harness(harness, "".join(s for _, s in ch), timeout=budget, asan=asan, env=env)
@@ -324,7 +328,11 @@ def run_cases(harness, cases, asan=False, per_case_timeout=60, jobs=16, env=None
             return [(out, (ch[0][0], rc, err[-3000:]))]
         res = []
         for c in ch:
-            rc1, out1, err1 = run_harness(harness, c[1], timeout=per_case_timeout + 30, asan=asan, env=env)
+            if len(timeouts) >= max_timeouts:
+                break
+            rc1, out1, err1 = run_harness(harness, c[1], timeout=per_case_timeout, asan=asan, env=env)
+            if rc1 == -999:
+                timeouts.append(c[0])
             res.append((out1, None if rc1 == 0 else (c[0], rc1, err1[-3000:])))
         return res
 
